@@ -1,4 +1,4 @@
-package blockexec
+package minerexec
 
 // Miner stage of C06: the blocks are assembled and sealed by the REAL miner (miner.NewMiner -> worker: newWorkLoop,
 // mainLoop, commitNewWork, commitTransactions, commitTransaction, commit, taskLoop, mine, postSeal) over a stub Backend
@@ -23,6 +23,7 @@ import (
 	"github.com/youchainhq/go-youchain/core/types"
 	"github.com/youchainhq/go-youchain/miner"
 	"verif/harness/drive"
+	be "verif/harness/drive/blockexec"
 	sd "verif/harness/drive/staking"
 )
 
@@ -141,6 +142,11 @@ func runMiner(env *drive.Env) error {
 				if err != nil {
 					panic(err)
 				}
+				// the pool admits a gas limit up to the head's; the block under construction has CalcGasLimit(head)
+				w.GasLimit = head.GasLimit()
+				if l := core.CalcGasLimit(head); l < w.GasLimit {
+					w.GasLimit = l
+				}
 				// submissions through the real pool, one by one (the pool's pending nonce is the next nonce)
 				rejected := []map[string]interface{}{}
 				for i := range ab.Txs {
@@ -208,7 +214,7 @@ func runMiner(env *drive.Env) error {
 				}
 				pool.VerifC06Reset(head.Header(), blk.Header())
 				rs := w.A.Bc.GetReceiptsByHash(blk.Hash())
-				ev := builtFields(blk, rs)
+				ev := be.BuiltFields(blk, rs)
 				// the worker's snapshot of the state it sealed: a negative staking record value means the staking-trie update failed
 				dberr := ""
 				if _, pst := m.Pending(); pst != nil {
@@ -265,18 +271,18 @@ func runMiner(env *drive.Env) error {
 				env.Emit(ev)
 				// re-execution with the import executor on the independent chain (its head is the parent), then import
 				for k := 0; k <= K; k++ {
-					r := rerun(w, w.B, blk, k, rnd)
-					r["ev"], r["blk"], r["k"], r["on"], r["errc"] = "Rerun", num, k, "B", errClass(fmt.Sprint(r["err"]))
+					r := be.Rerun(w, w.B, blk, k, rnd)
+					r["ev"], r["blk"], r["k"], r["on"], r["errc"] = "Rerun", num, k, "B", be.ErrClass(fmt.Sprint(r["err"]))
 					env.Emit(r)
 				}
 				imp := map[string]interface{}{"ev": "Imported", "blk": num, "err": ""}
 				if err := w.B.Bc.InsertChain(types.Blocks{blk}); err != nil {
 					imp["err"] = err.Error()
 				}
-				imp["errc"] = errClass(fmt.Sprint(imp["err"]))
+				imp["errc"] = be.ErrClass(fmt.Sprint(imp["err"]))
 				imp["head"] = w.B.Bc.CurrentBlock().Hash() == blk.Hash()
 				brs := w.B.Bc.GetReceiptsByHash(blk.Hash())
-				imp["rcpt"], imp["logs"], imp["stat"] = short(types.DeriveSha(brs)), logsDigest(brs), statusDigest(brs)
+				imp["rcpt"], imp["logs"], imp["stat"], imp["lidx"] = be.Short(types.DeriveSha(brs)), be.LogsDigest(brs), be.StatusDigest(brs), be.LogIndexDigest(brs)
 				env.Emit(imp)
 				if imp["err"] != "" || dberr != "" {
 					return
